@@ -41,8 +41,10 @@ Empty == [x \in {} |-> 0]
 Put(f, k, v) == [x \in DOMAIN f \cup {k} |-> IF x = k THEN v ELSE f[x]]
 Del(f, k)    == [x \in DOMAIN f \ {k} |-> f[x]]
 
+(* tokens i1, i2 are IDEMPOTENT mutators ("set X": no application count), all others count their applications *)
+IdemToks == {"i1", "i2"}
 Mut(c, v) ==
-  CASE c.h \in {"uwc", "modify"} -> [v EXCEPT !.toks = @ \cup {c.tok}, !.cnt = @ + 1]
+  CASE c.h \in {"uwc", "modify"} -> [v EXCEPT !.toks = @ \cup {c.tok}, !.cnt = IF c.tok \in IdemToks THEN @ ELSE @ + 1]
     [] c.h = "addfin"   -> [v EXCEPT !.fins = @ \cup {c.fin}]
     [] c.h = "remfin"   -> [v EXCEPT !.fins = @ \ {c.fin}]
     [] c.h \in {"teardown", "tad"} -> [v EXCEPT !.phase = "tearingDown"]
@@ -50,6 +52,9 @@ Mut(c, v) ==
 
 IsRmw(h) == h \in {"uwc", "modify", "addfin", "remfin", "teardown"}
 HasVal(h) == h \in {"uwc", "modify"}     \* helpers that hand the resulting object back
+(* the phase a successful call found the resource in (executed atomically): UpdateWithConflicts' expected phase, *)
+(* Modify's default; the finalizer helpers and Teardown accept any phase                                          *)
+ExpOf(c) == CASE c.h = "uwc" -> c.exp [] c.h = "modify" -> "running" [] OTHER -> "any"
 
 StateEv(v) == IF v.ver > 0 THEN [t |-> "created", v |-> v] ELSE [t |-> "destroyed", v |-> Absent]
 Matches(cond, ev) ==
@@ -155,6 +160,8 @@ Ret(e) ==
   ELSE IF HasVal(c.h) /\ ok /\ r.nw = 0 /\ v # r.lastGet THEN Reject("returned-not-current", r.lastGet, v)
   ELSE IF IsRmw(c.h) /\ ok /\ r.nw = 0 /\ ~(r.gotAny /\ r.lastGet.ver > 0 /\ Mut(c, r.lastGet) = r.lastGet)
        THEN Reject("noop-success-without-effect", [lastGet |-> r.lastGet], e.cls)
+  ELSE IF IsRmw(c.h) /\ ok /\ r.nw = 0 /\ ExpOf(c) # "any" /\ r.lastGet.phase # ExpOf(c)
+       THEN Reject("success-in-wrong-phase", [expected |-> ExpOf(c)], r.lastGet)
   ELSE IF c.h = "teardown" /\ ok /\ e.ready /\ (IF r.nw = 1 THEN r.lastWrite ELSE r.lastGet).fins # {}
        THEN Reject("ready-with-finalizers", {}, (IF r.nw = 1 THEN r.lastWrite ELSE r.lastGet).fins)
   ELSE IF c.h = "tad" /\ ok /\ ndestroy = r.destroys0 THEN Reject("tad-success-not-gone", "a destroy during the call", store)
